@@ -1,6 +1,7 @@
 // C18 — UTF-8 validator accepts exactly well-formed UTF-8, however the text is presented.
 // Reference: an independent RFC 3629 automaton. Engines: exhaustive product BFS, exhaustive 2^32 words,
 // class-representative 64-bit words, rapidcheck strings over every entry point / split / alignment.
+#include "../fw/deadline.hpp"
 #include "../fw/json.hpp"
 #include "../fw/scenario.hpp"
 #include <rapidcheck.h>
@@ -275,6 +276,7 @@ int main(int argc, char **argv)
 		    {1, rc::gen::map(rc::gen::arbitrary<unsigned char>(), [](unsigned char c) { return std::string(1, (char)c); })},
 		});
 		bool ok = rc::check("C18", [&]() {
+			if (budget::over()) { budget::skipped()++; return; }
 			auto frags = *rc::gen::container<std::vector<std::string>>(frag);
 			std::string s; for (auto &f : frags) s += f;
 			int pad = *rc::gen::inRange(0, 4);
